@@ -7,6 +7,9 @@
 exit 0: property held on everything explored (KNOWN-FINDING lines may be printed)
 exit 1: at least one `VIOLATION property=<ID> replay=<path>` line was printed
 exit 2: machinery failure (TLC crash, parse error, vacuous model, missing wrapper target)
+
+Exit code 1 is produced in exactly one place (Run.finish, after printing a VIOLATION line); every other way of
+leaving this program abnormally - bad arguments, unreadable replay file, an exception anywhere in the machinery - is 2.
 """
 import argparse, importlib, json, os, sys, traceback
 
@@ -16,32 +19,53 @@ os.environ.setdefault("CUQIPY_VERIF", "1")
 os.environ.setdefault("TQDM_DISABLE", "1")
 for _v in ("OMP_NUM_THREADS", "OPENBLAS_NUM_THREADS", "MKL_NUM_THREADS"):
     os.environ.setdefault(_v, "1")        # small problems: BLAS threads only oversubscribe the machine
+CALLER_CWD = os.getcwd()
 os.chdir(HERE)
+
+
+def _env_seed():
+    raw = os.environ.get("VERIF_SEED", "0") or "0"
+    try:
+        return int(raw)
+    except ValueError:
+        print("MACHINERY-ERROR VERIF_SEED=%r is not an integer" % raw)
+        sys.exit(2)
 
 
 def main():
     ap = argparse.ArgumentParser()
     ap.add_argument("pid")
-    ap.add_argument("--tier", default=os.environ.get("VERIF_TIER", "quick"), choices=["quick", "thorough"])
-    ap.add_argument("--seed", type=int, default=int(os.environ.get("VERIF_SEED", "0") or 0))
+    ap.add_argument("--tier", default=None, choices=["quick", "thorough"])
+    ap.add_argument("--seed", type=int, default=_env_seed())
     ap.add_argument("--replay")
     a = ap.parse_args()
+    tier = a.tier or os.environ.get("VERIF_TIER") or "quick"
+    if tier not in ("quick", "thorough"):
+        print("MACHINERY-ERROR VERIF_TIER=%r is neither quick nor thorough" % tier)
+        return 2
+    a.tier = tier
     pid = a.pid.upper()
+    if a.replay and not os.path.isabs(a.replay):
+        # a relative replay path is relative to where the user stands, not to this file (we chdir'ed above)
+        cand = os.path.join(CALLER_CWD, a.replay)
+        a.replay = cand if os.path.exists(cand) else os.path.join(HERE, a.replay)
     repo = os.environ.get("CUQIVERIF_REPO", "/repo")   # development only: point the checks at a scratch worktree
     if repo != "/repo":
         sys.path.insert(0, repo)
     from cuqiverif.core import Run, MachineryError
-    ctx = Run(pid, a.tier, a.seed, replay=a.replay)
     try:
         mod = importlib.import_module("cuqiverif.props.%s" % pid.lower())
     except ModuleNotFoundError as e:
         print("no check for %s: %s" % (pid, e))
         return 2
+    ctx = Run(pid, a.tier, a.seed, replay=a.replay)
     try:
         import cuqi  # noqa: F401  (fresh import of the repository's working tree)
         assert os.path.realpath(cuqi.__file__).startswith(os.path.realpath(repo) + "/"), cuqi.__file__
         if a.replay:
             rp = json.load(open(a.replay))
+            if rp.get("property", pid) != pid:
+                raise MachineryError("replay file %s belongs to property %s, not %s" % (a.replay, rp.get("property"), pid))
             cases = [rp["first"]["case"]] + rp.get("others", [])
             for c in cases:
                 mod.replay(ctx, c)
@@ -56,4 +80,14 @@ def main():
 
 
 if __name__ == "__main__":
-    sys.exit(main())
+    try:
+        rc = main()
+    except SystemExit:
+        raise
+    except KeyboardInterrupt:
+        rc = 130
+    except BaseException:       # anything that escaped (also from Run.finish itself): machinery, never "VIOLATION"
+        traceback.print_exc()
+        print("MACHINERY-ERROR uncaught exception in the check driver")
+        rc = 2
+    sys.exit(rc)
